@@ -4,9 +4,9 @@ use mck::{json, Args, Report, Value};
 use refm::poly as r2;
 use winter_air::{Air, AirContext, ConstraintDivisor, TraceInfo, TransitionConstraintDegree};
 use winter_math::fields::{f128, f62, f64};
-use winter_math::{FieldElement, StarkField};
+use winter_math::FieldElement;
 
-use crate::util::{label, merge_all, options, pow2s, pow_naive, tiny_air, trace_domain, Base, Sweep, W};
+use crate::util::{guarded, label, merge_all, options, pow2s, pow_naive, tiny_air, trace_domain, Base, Sweep, W};
 
 // TRANSITION DIVISOR
 // ------------------------------------------------------------------------------------------------
@@ -382,13 +382,15 @@ fn divisor_sweep<B: Base>(fname: &'static str, ns: &[usize], lagrange_up_to: usi
             cases.push((n, e));
         }
     }
-    cases.reverse(); // big ones first
-    merge_all(mck::par_map(cases.len(), |i| {
+    cases.reverse(); // big ones are scheduled first …
+    let mut parts = mck::par_map(cases.len(), |i| guarded("C23", || {
         let mut s = Sweep::new();
         let (n, e) = cases[i];
         check_divisor::<B>(fname, n, e, n <= lagrange_up_to, &mut s);
         s
-    }))
+    }));
+    parts.reverse(); // … but the simplest cases are reported first
+    merge_all(parts)
 }
 
 pub fn run(args: &Args) {
@@ -397,7 +399,7 @@ pub fn run(args: &Args) {
     }
     let mut report = Report::new(args, "exploration");
     let thorough = args.tier == mck::Tier::Thorough;
-    let ns: Vec<usize> = if thorough { vec![8, 16, 32, 64, 128, 256, 512] } else { vec![8, 16, 32, 64, 128] };
+    let ns: Vec<usize> = if thorough { vec![8, 16, 32, 64, 128, 256, 512, 1024] } else { vec![8, 16, 32, 64, 128] };
     let lag = if thorough { 64 } else { 32 };
 
     // 1. transition divisors
@@ -427,7 +429,7 @@ pub fn run(args: &Args) {
         }
     }
     let chunks = 256;
-    let parts = mck::par_map(chunks, |c| {
+    let parts = mck::par_map(chunks, |c| guarded("C23", || {
         let mut s = Sweep::new();
         for (i, (base, l, n)) in cases.iter().enumerate() {
             if i % chunks == c {
@@ -436,7 +438,7 @@ pub fn run(args: &Args) {
             }
         }
         s
-    });
+    }));
     merge_all(parts).into_report("degree declarations: base 1..=16 x ordered cycle lists of length <= 3 over powers of two <= n, evaluation degree, blowup, measured degree", json!({"measured_for": {"n": measure_ns, "base_up_to": measure_base}}), &mut report);
 
     // 3. composition columns for every admissible (degree, cycles, exemptions, n)
@@ -460,7 +462,7 @@ pub fn run(args: &Args) {
             }
         }
     }
-    let parts = mck::par_map(chunks, |c| {
+    let parts = mck::par_map(chunks, |c| guarded("C23", || {
         let mut s = Sweep::new();
         for (i, (base, l, n)) in ccases.iter().enumerate() {
             if i % chunks == c {
@@ -470,11 +472,11 @@ pub fn run(args: &Args) {
             }
         }
         s
-    });
+    }));
     merge_all(parts).into_report("composition columns: base 1..=16 x sorted cycle lists <= 3 x n x exemptions 0..=n/2+2 (blowup = min_blowup_factor)", json!({}), &mut report);
 
     // 4. periodic columns
-    let pns: Vec<usize> = if thorough { vec![8, 16, 32, 64, 128, 256, 512] } else { vec![8, 16, 32, 64, 128] };
+    let pns: Vec<usize> = if thorough { vec![8, 16, 32, 64, 128, 256, 512, 1024] } else { vec![8, 16, 32, 64, 128] };
     let mut pc: Vec<(usize, usize)> = vec![];
     for &n in &pns {
         for pattern in 0..=n.min(64) {
@@ -482,7 +484,7 @@ pub fn run(args: &Args) {
         }
     }
     for (fname, which) in [("f64", 0), ("f62", 1), ("f128", 2)] {
-        let parts = mck::par_map(pc.len(), |i| {
+        let parts = mck::par_map(pc.len(), |i| guarded("C23", || {
             let mut s = Sweep::new();
             let (n, p) = pc[i];
             match which {
@@ -491,7 +493,7 @@ pub fn run(args: &Args) {
                 _ => check_periodic::<f128::BaseElement>("f128", n, p, &mut s),
             }
             s
-        });
+        }));
         merge_all(parts).into_report(&format!("periodic columns, {fname}: every cycle length <= n, generic values and every unit vector, every trace step"), json!({"n": pns}), &mut report);
     }
 
